@@ -1009,9 +1009,8 @@ impl GraphDatabase {
 
         data_model.update_system(SYSTEM_DATA_MODEL)?;
         data_model.update(model)?;
-        self.data_model = data_model;
 
-        let str = serde_json::to_string(&self.data_model)?;
+        let str = serde_json::to_string(&data_model)?;
 
         struct Serialized(String, DataModel);
         impl Writeable for Serialized {
@@ -1055,8 +1054,11 @@ impl GraphDatabase {
 
         self.graph_database
             .writer
-            .write(Box::new(Serialized(str.clone(), self.data_model.clone())))
+            .write(Box::new(Serialized(str.clone(), data_model.clone())))
             .await?;
+
+        //the running model is only replaced once the new one is stored
+        self.data_model = data_model;
 
         Ok(str)
     }
